@@ -161,6 +161,30 @@ def run(ctx):
                        "method as all ten copies of that state machine")
     a9.header_reader_agreement(ctx, "C09.R8", r"noodles_(vcf|bcf)::", 12)
 
+    ctx.rule("C09.R9", "A7 pairing per value type: the Character writers percent-encode, so every reader that extracts a single character "
+                       "(eager parse_raw_char, lazy parse_character_value, the char array iterators; INFO and samples) does so on percent-decoded text")
+    enc_char = [k for k in fb.fns if re.search(r"noodles_vcf::io::writer::record::(info::field|samples::sample)::value::character::write_character$", k)
+                and any((c.get("f") or "").endswith("percent_encode_byte") for b, c in fb.fns[k].calls())]
+    ctx.floor("C09.R9", "Character writers that percent-encode (INFO, samples)", len(enc_char), 2)
+    n9 = 0
+    for k, f in sorted(fb.fns.items()):
+        if "noodles_vcf::" not in k or "writer" in k or "genotype" in k or f.crate != "noodles_vcf":
+            continue
+        if not re.search(r"(info|samples)", k) or "value" not in k:
+            continue
+        if not any((c.get("f") or "").endswith("str::<impl str>::chars") for b, c in f.calls()):
+            continue
+        n9 += 1
+        ctx.saw_fn(f)
+        dec = any(re.search(r"percent_decode$", c.get("f") or "") for g in fb.family(f.root) for b, c in g.calls())
+        if dec:
+            ctx.ok("C09.R9", f.root + " :: single character taken from percent-decoded text", "", f.loc())
+        else:
+            ctx.violation("C09.R9", "C09.R9/character-not-decoded/" + f.root,
+                          "%s extracts a Character value from the raw text: the writer emits `%%3B` for `;` (and %%2C, %%25, %%3D, %%2E ...), which "
+                          "this reader rejects or mis-reads although noodles wrote it" % f.root, f.loc())
+    ctx.floor("C09.R9", "single-character extractors in the VCF readers", n9, 6)
+
     ctx.rule("C09.R4", "impl table: variant_end / variant_span are single provided implementations (lazy and eager share them)")
     tr = fb.traits.get(V + "variant::record::Record")
     if tr is None:
